@@ -371,6 +371,14 @@ def depends(rep, repo):
     cmod = repo.mod('circuit')
     c10.resolve_rules(rep, cmod)
     c10.substitute_rules(rep, repo, cmod)
+    # "... its library cells resolved, simulates to exactly the Boolean function": the implementation a cell resolves to is the library
+    # definition (pin order of the implementation ports, datasheet function): the C19 rules are part of this check
+    from checks import c19
+    keep = (rep.explanation, rep.trusted, rep.assumptions, rep.exhaustive)
+    try:
+        c19.run(rep, repo)
+    finally:
+        rep.explanation, rep.trusted, rep.assumptions, rep.exhaustive = keep
     undecided_changes(rep, repo)
 
 
